@@ -163,6 +163,16 @@ pub fn run_a(rep: &Report, tier: Tier) {
 
 /// detections of one step of a relative-motion word
 fn frame(word: &[usize], step: usize, family: usize) -> Vec<Det> {
+    if family == 4 {
+        // low-confidence detections (below a high configured minimum): the clamp decides gate and weight
+        let mut gap = 4.0f32;
+        for d in &word[..step] {
+            gap += [-2.0f32, 0.0, 3.0][*d];
+        }
+        let a = Det::ltwh(0.5 * step as f32, 0.0, 10.0, 20.0).conf(if step % 2 == 1 { 0.1 } else { 1.0 });
+        let b = Det::ltwh(0.5 * step as f32 + gap, 1.0, 10.0, 20.0).conf(if step % 3 == 2 { 0.2 } else { 0.7 });
+        return if step % 2 == 0 { vec![a, b] } else { vec![b, a] };
+    }
     if family == 3 {
         // a single object that jumps by 16 / 24 / 30 px per step (bounding-circle reach of two 10x20
         // boxes: 22.4 px), far away from a second, static one
@@ -215,12 +225,20 @@ pub fn run_b(rep: &Report, tier: Tier) {
         c.kalman_w = (0.5, 0.1);
         cfgs.push(c);
     }
+    // a high minimal confidence (above the IoU threshold): low-confidence detections are lifted over the gate
+    for kind in [Kind::Sort, Kind::VisualSort] {
+        let mut c = TrkCfg::new(kind);
+        c.pos = Pos::Iou(0.3);
+        c.min_conf = 0.6;
+        c.max_idle = 1;
+        cfgs.push(c);
+    }
     let calls = AtomicU64::new(0);
     let undecided = AtomicU64::new(0);
     let greedy_differs = AtomicU64::new(0);
     let continued = AtomicU64::new(0);
     for cfg in cfgs {
-        for family in 0..4usize {
+        for family in 0..5usize {
             if rep.out_of_time() {
                 rep.cap_hit("wall budget reached in the end-to-end association part");
                 return;
